@@ -34,6 +34,8 @@ CLAIMS["C20"] = ("Every path of RdbReplay.Replay is enumerated (RESTORE retry un
 
 CLAIMS["C03"] = ("Type tables agree per parser (routing = payload consumption = expansion) and every value type is routed; DUMP framing order/endianness/size; CRC-64 table equals the Jones table computed in the checker; ziplist/intset/listpack integers are sign-extended per encoding width; ziplist ends at 255 only; on every successful path of Replay an expanded value with an expiry gets PEXPIRE and RESTORE carries the ttl; fan-out lane depends on the key only; all value bytes go through the tee into the payload; plain and bidirectional RESTORE choice agree; later chunks append. Value-level decoding of all encodings is not decided.", "3/C03")
 
+CLAIMS["C04"] = ("In sendRdb every replay goroutine and panic callback reports exactly one result on every path, the collector receives cap(results) values and the completion record is dominated by 'no error' and by a live-context test after collection (or all producers fail on cancel); every error edge of the snapshot parser sends an error entry and completion is announced only after the footer check; every consumer tests the entry's error before use; Footer returns nil only after reading the stored checksum and finding it zero or equal (all paths); explicit decoder panics reach goroutine roots only through a reporting recover frame (call graph); pumps return nil only for a fully delivered snapshot; all stages watch the context.", "3/C04")
+
 NOT_YET = "check not built yet in this revision (planned, see DESIGN.md section 3)"
 
 def main():
